@@ -61,7 +61,7 @@ Step(e) ==
          /\ Report(l, sid, s, RetViolations(s, st, e))
          \* which kind of error (ErrorKinds.tla): C13's "only real timeouts", and the extended guards (notes)
          /\ (~G13_onlyRealTimeouts(s, stalled, e)) => Viol(l, sid, "C13", "G13_onlyRealTimeouts", e.kind)
-         /\ \A g \in {x \in ExtGuards : ~ExtGuard(x, s, ~st.errSeen /\ ~EfsRejects(s, st), e)} : Viol(l, sid, "X-error-kinds", g, e.kind)
+         /\ \A g \in {x \in ExtGuards : ~ExtGuard(x, s, ~st.errSeen /\ ~EfsRejects(s, st) /\ ~Dev_jsonWrapsTransportErrors(st.op), e)} : Viol(l, sid, "X-error-kinds", g, e.kind)
          /\ st' = AfterRet(st, e)
          /\ UNCHANGED <<s, sid, stalled>>
 
